@@ -98,3 +98,40 @@ Example C13_example_labels : labels (A:=Q) std_ops
                    Leaf "c" (Build_leafdev 2 [] [] KPV) ] None)
   = ["root.a"; "root.in.b"; "root.in.m.e"; "root.in.m.h"; "root.c"].
 Proof. reflexivity. Qed.
+
+(* ---- BaseDevice.leaf_devices / map / mapDevices / get / find regenerated from device_kit/basedevice.py on every run (Gen/BaseDevice.v,
+        translator/basedevice_tx.py): the recursive generator with its label expression `fqid + s + sub_device.id`, the `try/except` that
+        tells composites from leaves by iterability, the accumulation loop; `enumerate(self.leaf_devices())` with the row slice `s[i:i+1, :]`;
+        the scans over `dict(self.leaf_devices()).items()` with `k.endswith(name)` / `re.match(regexp, k)` and the `[0]`.  The labelling
+        code sees a tree as an `itree` (embed: a leaf is not iterable, a set iterates over its children, an adaptor over its conduit devices).
+        With fuel above the depth of the tree the generated walk IS `leaves`; map / mapDevices pair entry i with row i; get / find are the
+        model's dictionary scans (find: for a matcher that agrees with the literal-suffix / literal-prefix tests of the model). ---- *)
+From DK.Model Require Import LabelOps.
+From DK.Gen Require Import BaseDevice.
+From DK.Proofs Require Import GenBaseDevice.
+Theorem C13_source_leaf_devices : forall {A} `{Num A} {L} (ops : leafops A L) (d : gdev A L) fuel, (gdepth d < fuel)%nat ->
+  strip (leaf_devices_gen fuel (embed ops d)) = some_leaves (leaves ops d).
+Proof. intros A H L ops d fuel. apply gen_leaf_devices. Qed.
+Theorem C13_source_map : forall {A} `{Num A} {L} (ops : leafops A L) (d : gdev A L) (s : list A),
+  List.length (leaves ops d) = List.length (reshape (rows ops d) (dlen ops d) s) ->
+  map_gen (leaves ops d) (rows ops d, dlen ops d) s = map_rows_flat ops d s
+  /\ mapDevices_gen (leaves ops d) (rows ops d, dlen ops d) s = map_devices ops d (reshape (rows ops d) (dlen ops d) s).
+Proof.
+  intros A H L ops d s Hl. split.
+  - rewrite (gen_map (leaves ops d) (rows ops d, dlen ops d) s Hl). reflexivity.
+  - exact (gen_mapDevices (leaves ops d) (rows ops d, dlen ops d) s Hl).
+Qed.
+Theorem C13_source_get_find : forall {A} `{Num A} {L} (ops : leafops A L) (d : gdev A L) (rematch : string -> string -> bool) name regexp,
+  get_gen (leaves ops d) name = get ops d name
+  /\ (forall suf, (forall k, rematch regexp k = ends_with k suf) -> find_gen rematch (leaves ops d) regexp = find_suffix ops d suf)
+  /\ (forall pre, (forall k, rematch regexp k = starts_with k pre) -> find_gen rematch (leaves ops d) regexp = find_prefix ops d pre).
+Proof.
+  intros A H L ops d rematch name regexp. split; [apply gen_get|split]; intros x Hm; [now apply gen_find_suffix|now apply gen_find_prefix].
+Qed.
+(* non-vacuity: the generated walk on the example tree above, with fuel 4 (depth 3: root, in, the adaptor m, its conduits) *)
+Example C13_example_source_walk : map fst (leaf_devices_gen 4 (embed (A:=Q) std_ops
+    (DSet "root" [ Leaf "a" (Build_leafdev 2 [] [] KDev);
+                   DSet "in" [ Leaf "b" (Build_leafdev 2 [] [] KDev); MF "m" (Build_leafdev 2 [] [] KDev) ["e"; "h"] ] None;
+                   Leaf "c" (Build_leafdev 2 [] [] KPV) ] None)))
+  = ["root.a"; "root.in.b"; "root.in.m.e"; "root.in.m.h"; "root.c"].
+Proof. reflexivity. Qed.
